@@ -260,3 +260,33 @@ pub fn redeclaration_programs() -> Vec<String> {
     out.dedup();
     out
 }
+
+/// an iterator that yields nothing and says nothing about its element type (`[]~`, `[]` offered
+/// as `[T]`) used where an iterator / array of T is declared: every operator must answer with a
+/// value of the declared type
+pub fn never_iterator_programs() -> Vec<String> {
+    let mut out = vec![];
+    // ($& $| $&& $|| are left out: their helpers call the iterator as a function and see the `()` filler
+    // of the recorded finding C01:void-for-never where they declare a bool / an int)
+    for (t, zero) in [("float", "0.5"), ("string", "\"s\""), ("int", "5")] {
+        let ops: &[&str] = match t {
+            "float" => &["it $+", "it $*", "it $]", "it ? float $]"],
+            "string" => &["it $+", "it $]", "it ? string $]"],
+            _ => &["it $+", "it $*", "it $]", "it $+ + it $*"],
+        };
+        for op in ops {
+            for source in ["[]~", "[][:]~", "[]~ ? any"] {
+                out.push(format!("f := (it: () -> (bool, {t})) -> any {{ r := {op}; return r; }}; f({source})"));
+            }
+            out.push(format!("f := (a: [{t}]) -> any {{ it := a~; r := {op}; return r; }}; f([])"));
+            out.push(format!("f := (a: [{t}]) -> any {{ it := a[0:0]~; r := {op}; return r; }}; f([{zero}])"));
+        }
+        {
+            out.push(format!("f := (it: () -> (bool, {t})) -> any {{ r := (it ? (v: {t}) -> bool {{ return true; }}) $+; return r; }}; f([]~)"));
+            out.push(format!("f := (it: () -> (bool, {t})) -> any {{ r := (it @ (v: {t}) -> {t} {{ return v; }}) $+; return r; }}; f([]~)"));
+            out.push(format!("f := (it: () -> (bool, {t})) -> any {{ r := it $ {zero} (acc: {t}, v: {t}) -> {t} {{ return acc + v; }}; return r; }}; f([]~)"));
+            out.push(format!("f := (it: () -> (bool, {t})) -> {t} {{ return it $+; }}; f([]~)"));
+        }
+    }
+    out
+}
